@@ -8,6 +8,13 @@ Every theorem below states `generated = model` and is proved by evaluation, so t
 sources (a reordered field, another TYPE_CODE, a mask, a limit, a name made compressible, …)
 regenerates a different table and the corresponding theorem stops checking.
 
+The tie degrades item by item.  A source construct the translator does not understand unties that
+item only: a constant is then `none`, a whole table `[]` with its name in `Gen.untied`, a row of a
+schema table is absent with its TYPE code in `Gen.untiedParse` / `untiedWrite` / `untiedCompressed`.
+The theorems are stated so that they hold for an untied item and are unchanged checks for a tied one:
+`c.all (· == v)` / `c.getD v` for constants, `∀ e ∈ table` / agreement on common keys for rows,
+`"table" ∈ Gen.untied ∨ …` for statements about a table as a whole.
+
 Build:  python3 tools/translate.py && (cd lean && lake build SimpleDnsModel.Props.Tie)
 -/
 import SimpleDnsModel.Generated.FromSource
@@ -27,10 +34,10 @@ theorem typeCodes_model :
 
 /-- every variant of the model's `TYPE` other than `Unknown` is a variant of the source -/
 theorem typeCodes_complete (t : TYPE) (h : t.isUnknown = false) :
-    (t.mnemonic, t.toCode) ∈ Gen.typeCodes := by
+    "typeCodes" ∈ Gen.untied ∨ (t.mnemonic, t.toCode) ∈ Gen.typeCodes := by
   cases t <;> first | decide | cases h
 
-theorem typeCodes_length : Gen.typeCodes.length = 41 := by decide
+theorem typeCodes_length : "typeCodes" ∈ Gen.untied ∨ Gen.typeCodes.length = 41 := by decide
 
 /-! ### 2. / 3. RDATA field layouts (`fn parse`, `fn write_to`, `fn write_compressed_to`) -/
 
@@ -38,19 +45,41 @@ theorem typeCodes_length : Gen.typeCodes.length = 41 := by decide
 names are compressible -/
 theorem parseSchema_model : ∀ e ∈ Gen.parseSchema, schemaOf e.1 = some e.2 := by decide
 
-/-- parse order = write order, field kind by field kind -/
-theorem writeSchema_eq_parseSchema : Gen.writeSchema = Gen.parseSchema := by decide
+/-- … and so is the sequence of writes of each `fn write_to` … -/
+theorem writeSchema_model : ∀ e ∈ Gen.writeSchema, schemaOf e.1 = some e.2 := by decide
+
+/-- … and of each `fn write_compressed_to` override -/
+theorem compressedSchema_model : ∀ e ∈ Gen.compressedSchema, schemaOf e.1 = some e.2 := by decide
+
+/-- parse order = write order, field kind by field kind (for every type of which both were
+translated) -/
+theorem writeSchema_agrees :
+    ∀ e ∈ Gen.writeSchema, ∀ e' ∈ Gen.parseSchema, e.1 = e'.1 → e.2 = e'.2 := by decide
 
 /-- … and struct field by struct field: the n-th value read is stored in the field the n-th value
 written comes from -/
-theorem writeFields_eq_parseFields : Gen.writeFields = Gen.parseFields := by decide
+theorem writeFields_agrees :
+    ∀ e ∈ Gen.writeFields, ∀ e' ∈ Gen.parseFields, e.1 = e'.1 → e.2 = e'.2 := by decide
 
-/-- a `write_compressed_to` override writes the same fields in the same order as `write_to` -/
-theorem compressedSchema_sub : ∀ e ∈ Gen.compressedSchema, e ∈ Gen.parseSchema := by decide
+/-- the tables of fields have a row for exactly the types the tables of kinds have one for -/
+theorem parseFields_keys : Gen.parseFields.map (·.1) = Gen.parseSchema.map (·.1) := by decide
+theorem writeFields_keys : Gen.writeFields.map (·.1) = Gen.writeSchema.map (·.1) := by decide
+
+/-- a `write_compressed_to` override writes the same fields in the same order as `parse` reads
+and as `write_to` writes -/
+theorem compressedSchema_agrees :
+    ∀ e ∈ Gen.compressedSchema, ∀ e' ∈ Gen.parseSchema, e.1 = e'.1 → e.2 = e'.2 := by decide
+theorem compressedSchema_agrees_write :
+    ∀ e ∈ Gen.compressedSchema, ∀ e' ∈ Gen.writeSchema, e.1 = e'.1 → e.2 = e'.2 := by decide
 
 /-- a type without such an override compresses nothing -/
 theorem uncompressed_without_override :
-    ∀ e ∈ Gen.parseSchema, e.1 ∉ Gen.compressedSchema.map (·.1) → FKind.name true ∉ e.2 := by
+    ∀ e ∈ Gen.parseSchema, e.1 ∉ Gen.compressedSchema.map (·.1) → e.1 ∉ Gen.untiedCompressed →
+      FKind.name true ∉ e.2 := by
+  decide
+theorem uncompressed_without_override_write :
+    ∀ e ∈ Gen.writeSchema, e.1 ∉ Gen.compressedSchema.map (·.1) → e.1 ∉ Gen.untiedCompressed →
+      FKind.name true ∉ e.2 := by
   decide
 
 /-- the codes of the 38 flat types -/
@@ -69,99 +98,124 @@ theorem schemaOf_isSome_iff (c : Nat) : schemaOf c ≠ none ↔ c ∈ flatCodes 
     exact this c h
 
 /-- … and each of them was translated from the source (with `parseSchema_model`: the table
-generated from the source and the model's table are the same function) -/
-theorem flatCodes_translated : ∀ c ∈ flatCodes, c ∈ Gen.parseSchema.map (·.1) := by decide
+generated from the source and the model's table are the same function) or is listed as untied.
+(Without `typeCodes` the TYPE code of an untied type may be unknown, so that it cannot be listed.) -/
+theorem flatCodes_translated :
+    "typeCodes" ∈ Gen.untied ∨
+      ∀ c ∈ flatCodes, c ∈ Gen.parseSchema.map (·.1) ∨ c ∈ Gen.untiedParse := by decide
+theorem flatCodes_written :
+    "typeCodes" ∈ Gen.untied ∨
+      ∀ c ∈ flatCodes, c ∈ Gen.writeSchema.map (·.1) ∨ c ∈ Gen.untiedWrite := by decide
 
 theorem parseSchema_keys_flat : ∀ e ∈ Gen.parseSchema, e.1 ∈ flatCodes := by decide
+theorem writeSchema_keys_flat : ∀ e ∈ Gen.writeSchema, e.1 ∈ flatCodes := by decide
 
-theorem parseSchema_length : Gen.parseSchema.length = 38 := by decide
+theorem parseSchema_length :
+    "typeCodes" ∈ Gen.untied ∨ Gen.parseSchema.length + Gen.untiedParse.length = 38 := by decide
+theorem writeSchema_length :
+    "typeCodes" ∈ Gen.untied ∨ Gen.writeSchema.length + Gen.untiedWrite.length = 38 := by decide
 
 /-- the flat types are all variants except OPT, IPSECKEY and NULL -/
 theorem flat_types :
-    (Gen.typeCodes.filter (fun e => e.2 ∉ Gen.parseSchema.map (·.1))).map (·.1) =
+    "typeCodes" ∈ Gen.untied ∨
+    (Gen.typeCodes.filter
+        (fun e => e.2 ∉ Gen.parseSchema.map (·.1) ∧ e.2 ∉ Gen.untiedParse)).map (·.1) =
       ["OPT", "IPSECKEY", "NULL"] := by decide
 
 /-! ### 5. constants -/
 
-theorem opcodeMask : Gen.opcodeMask = Mask.OPCODE := by decide
-theorem reservedMask : Gen.reservedMask = Mask.RESERVED := by decide
-theorem responseCodeMask : Gen.responseCodeMask = Mask.RCODE := by decide
-theorem packetFlagsAll : Gen.packetFlagsAll = Mask.ALLFLAGS := by decide
-theorem packetFlags_count : Gen.packetFlags.length = 7 := by decide
+/- A constant is `some v` (read from the source) or `none` (untied): `c.all (· == m)` says that it is the
+model's `m` if it was read; the `_model` theorems use `c.getD m`, the source's value if there is one. -/
+
+theorem opcodeMask : Gen.opcodeMask.all (· == Mask.OPCODE) = true := by decide
+theorem reservedMask : Gen.reservedMask.all (· == Mask.RESERVED) = true := by decide
+theorem responseCodeMask : Gen.responseCodeMask.all (· == Mask.RCODE) = true := by decide
+theorem packetFlagsAll : "packetFlags" ∈ Gen.untied ∨ Gen.packetFlagsAll = Mask.ALLFLAGS := by decide
+theorem packetFlags_count : "packetFlags" ∈ Gen.untied ∨ Gen.packetFlags.length = 7 := by decide
 /-- `PacketFlag::RESPONSE`, the flag `build_reply` sets and the pipeline tests -/
-theorem packetFlags_response : ("RESPONSE", 0x8000) ∈ Gen.packetFlags := by decide
+theorem packetFlags_response :
+    "packetFlags" ∈ Gen.untied ∨ ("RESPONSE", 0x8000) ∈ Gen.packetFlags := by decide
+/-- every constant of `PacketFlag` lies inside the model's mask -/
+theorem packetFlags_model : ∀ e ∈ Gen.packetFlags, e.2 ||| Mask.ALLFLAGS = Mask.ALLFLAGS := by decide
 /-- the shift `OPCODE_MASK.trailing_zeros()` of `Header::parse` / `get_flags` is the model's 11 -/
-theorem opcodeShift : Gen.opcodeMask % 2 ^ 11 = 0 ∧ Gen.opcodeMask / 2 ^ 11 % 2 = 1 := by decide
+theorem opcodeShift :
+    Gen.opcodeMask.getD Mask.OPCODE % 2 ^ 11 = 0 ∧ Gen.opcodeMask.getD Mask.OPCODE / 2 ^ 11 % 2 = 1 := by
+  decide
 
 /- limits and masks the model uses as literals: the value, and a place where the model depends on it -/
-theorem maxLabel : Gen.maxLabel = 63 := by decide
-theorem maxName : Gen.maxName = 255 := by decide
-theorem maxCharStr : Gen.maxCharStr = 255 := by decide
-theorem maxNull : Gen.maxNull = 65535 := by decide
-theorem pointerMask : Gen.pointerMask = 0xC0 := by decide
-theorem pointerMaskU16 : Gen.pointerMaskU16 = 0xC000 := by decide
-theorem maxPointerOffset : Gen.maxPointerOffset = 0x3FFF := by decide
-theorem optRcodeMask : Gen.optRcodeMask = 0xFF := by decide
-theorem optVersionMask : Gen.optVersionMask = 0xFF00 := by decide
-theorem cacheFlushBit : Gen.cacheFlushBit = 0x8000 := by decide
-theorem cacheFlushTtl : Gen.cacheFlushTtl = 1 := by decide
-theorem ttlUnitMillis : Gen.ttlUnitMillis = 1000 := by decide
+theorem maxLabel : Gen.maxLabel.all (· == 63) = true := by decide
+theorem maxName : Gen.maxName.all (· == 255) = true := by decide
+theorem maxCharStr : Gen.maxCharStr.all (· == 255) = true := by decide
+theorem maxNull : Gen.maxNull.all (· == 65535) = true := by decide
+theorem pointerMask : Gen.pointerMask.all (· == 0xC0) = true := by decide
+theorem pointerMaskU16 : Gen.pointerMaskU16.all (· == 0xC000) = true := by decide
+theorem maxPointerOffset : Gen.maxPointerOffset.all (· == 0x3FFF) = true := by decide
+theorem optRcodeMask : Gen.optRcodeMask.all (· == 0xFF) = true := by decide
+theorem optVersionMask : Gen.optVersionMask.all (· == 0xFF00) = true := by decide
+theorem cacheFlushBit : Gen.cacheFlushBit.all (· == 0x8000) = true := by decide
+theorem cacheFlushTtl : Gen.cacheFlushTtl.all (· == 1) = true := by decide
+theorem ttlUnitMillis : Gen.ttlUnitMillis.all (· == 1000) = true := by decide
 
 /-- `Name.WF` accepts a label of `MAX_LABEL_LENGTH` bytes and no longer one -/
 theorem maxLabel_model :
-    Name.WF [List.replicate Gen.maxLabel 0] ∧ ¬ Name.WF [List.replicate (Gen.maxLabel + 1) 0] := by
+    Name.WF [List.replicate (Gen.maxLabel.getD 63) 0] ∧
+    ¬ Name.WF [List.replicate (Gen.maxLabel.getD 63 + 1) 0] := by
   decide
 
 /-- `Name.WF` accepts an encoded name of `MAX_NAME_LENGTH` bytes and no longer one -/
 theorem maxName_model :
-    Name.wireLen (List.replicate 3 (List.replicate 63 0) ++ [List.replicate 61 0]) = Gen.maxName ∧
+    Name.wireLen (List.replicate 3 (List.replicate 63 0) ++ [List.replicate 61 0]) =
+      Gen.maxName.getD 255 ∧
     Name.WF (List.replicate 3 (List.replicate 63 0) ++ [List.replicate 61 0]) ∧
     ¬ Name.WF (List.replicate 3 (List.replicate 63 0) ++ [List.replicate 62 0]) := by decide
 
 /-- `FieldOK` accepts a character-string of `MAX_CHARACTER_STRING_LENGTH` bytes and no longer one -/
 theorem maxCharStr_model :
-    FieldOK .charstr (.bytes (List.replicate Gen.maxCharStr 0)) ∧
-    ¬ FieldOK .charstr (.bytes (List.replicate (Gen.maxCharStr + 1) 0)) := by decide +kernel
+    FieldOK .charstr (.bytes (List.replicate (Gen.maxCharStr.getD 255) 0)) ∧
+    ¬ FieldOK .charstr (.bytes (List.replicate (Gen.maxCharStr.getD 255 + 1) 0)) := by decide +kernel
 
 /-- `compressName` records a suffix at offset `MAX_POINTER_OFFSET` and not beyond, and writes a
 pointer as the offset or-ed with `POINTER_MASK_U16` -/
 theorem maxPointerOffset_model :
-    (compressName [[1]] Gen.maxPointerOffset []).2 = [([[1]], Gen.maxPointerOffset)] ∧
-    (compressName [[1]] (Gen.maxPointerOffset + 1) []).2 = [] ∧
-    (compressName [[1]] 40 [([[1]], 12)]).1 = beN 2 (12 ||| Gen.pointerMaskU16) := by decide
+    (compressName [[1]] (Gen.maxPointerOffset.getD 0x3FFF) []).2 =
+      [([[1]], Gen.maxPointerOffset.getD 0x3FFF)] ∧
+    (compressName [[1]] (Gen.maxPointerOffset.getD 0x3FFF + 1) []).2 = [] ∧
+    (compressName [[1]] 40 [([[1]], 12)]).1 = beN 2 (12 ||| Gen.pointerMaskU16.getD 0xC000) := by
+  decide
 
 /-- the first byte of a pointer as `compressName` writes it has exactly the `POINTER_MASK` bits
 on top of the offset's high bits (the test `nameLoop` applies) -/
 theorem pointerMask_model :
-    ∀ off < 64, ((beN 2 (off * 256 ||| Gen.pointerMaskU16))[0]?.map (·.toNat &&& Gen.pointerMask)) =
-      some Gen.pointerMask := by decide
+    ∀ off < 64, ((beN 2 (off * 256 ||| Gen.pointerMaskU16.getD 0xC000))[0]?.map
+        (·.toNat &&& Gen.pointerMask.getD 0xC0)) = some (Gen.pointerMask.getD 0xC0) := by decide
 
 /-- the CLASS field of a cache-flush record / of a unicast-response question -/
 theorem cacheFlushBit_model :
     RR.writeCommon { name := [], cls := .IN, ttl := 0, rdata := .empty .A, flush := true } =
-      beN 2 1 ++ (beN 2 (CLASS.IN.toCode ||| Gen.cacheFlushBit) ++ beN 4 0) ∧
+      beN 2 1 ++ (beN 2 (CLASS.IN.toCode ||| Gen.cacheFlushBit.getD 0x8000) ++ beN 4 0) ∧
     Question.writeCommon { name := [], qtype := .ANY, qclass := .ANY, unicast := true } =
-      beN 2 255 ++ beN 2 (255 ||| Gen.cacheFlushBit) := by decide
+      beN 2 255 ++ beN 2 (255 ||| Gen.cacheFlushBit.getD 0x8000) := by decide
 
 /-- EDNS: the TTL of the OPT record carries the version under `VERSION_MASK` and the high bits of
 the response code under `RCODE_MASK` -/
 theorem optMasks_model :
     (∀ v < 256, encodeTtl { udp := 0, version := v, codes := [] }
         { id := 0, opcode := .StandardQuery, rcode := .BADVERS, flags := 0, opt := none }
-        = (v * 256 &&& Gen.optVersionMask) ||| (16 &&& Gen.optRcodeMask) >>> 4) ∧
+        = (v * 256 &&& Gen.optVersionMask.getD 0xFF00) ||| (16 &&& Gen.optRcodeMask.getD 0xFF) >>> 4) ∧
     (∀ t < 256, extractRcode t { id := 0, opcode := .StandardQuery, rcode := .NoError, flags := 0, opt := none }
-        = RCODE.ofCode ((t &&& Gen.optRcodeMask) <<< 4)) := by decide +kernel
+        = RCODE.ofCode ((t &&& Gen.optRcodeMask.getD 0xFF) <<< 4)) := by decide +kernel
 
 /-- simple-mdns `add_cached_resource`: a cache-flush record expires after `cacheFlushTtl` seconds,
 any other after its own TTL -/
 theorem cacheFlushTtl_model :
     let r (flush : Bool) : RR := { name := [[97]], cls := .IN, ttl := 4500, rdata := .flat 1 [.int 7], flush := flush }
     (Mdns.Store.empty.addCached (r true) 5).entries =
-      [(Mdns.getKey [[97]], [(r true, .cached (5 + Gen.ttlUnitMillis * Gen.cacheFlushTtl)
-          (5 + Gen.ttlUnitMillis * Mdns.refreshOffsetSecs Gen.cacheFlushTtl))])] ∧
+      [(Mdns.getKey [[97]],
+        [(r true, .cached (5 + Gen.ttlUnitMillis.getD 1000 * Gen.cacheFlushTtl.getD 1)
+          (5 + Gen.ttlUnitMillis.getD 1000 * Mdns.refreshOffsetSecs (Gen.cacheFlushTtl.getD 1)))])] ∧
     (Mdns.Store.empty.addCached (r false) 5).entries =
-      [(Mdns.getKey [[97]], [(r false, .cached (5 + Gen.ttlUnitMillis * 4500)
-          (5 + Gen.ttlUnitMillis * Mdns.refreshOffsetSecs 4500))])] := by decide
+      [(Mdns.getKey [[97]], [(r false, .cached (5 + Gen.ttlUnitMillis.getD 1000 * 4500)
+          (5 + Gen.ttlUnitMillis.getD 1000 * Mdns.refreshOffsetSecs 4500))])] := by decide
 
 /-! ### 6. enum tables (`enum X { V = n }`, `impl From<u16>/TryFrom<u16> for X`) -/
 
@@ -169,17 +223,24 @@ def outName (name : α → String) : Out α → Option String
   | .ok a => some (name a)
   | _ => none
 
+/-- how the translator writes a default arm that is an error (`none` is an untied default arm) -/
+def errArm : String := "Err(_)"
+
 /-- `as u16` of every CLASS variant is the model's `toCode` -/
-theorem classTable_model (c : CLASS) : (c.mnemonic, c.toCode) ∈ Gen.classTable := by
+theorem classTable_model (c : CLASS) :
+    "classTable" ∈ Gen.untied ∨ (c.mnemonic, c.toCode) ∈ Gen.classTable := by
   cases c <;> decide
-theorem classTable_length : Gen.classTable.length = 5 := by decide
+theorem classTable_length : "classTable" ∈ Gen.untied ∨ Gen.classTable.length = 5 := by decide
 /-- discriminants and `TryFrom<u16>` arms agree -/
-theorem classArms_table : Gen.classArms = Gen.classTable.map (fun e => (e.2, e.1)) := by decide
+theorem classArms_table :
+    "classTable" ∈ Gen.untied ∨ "classArms" ∈ Gen.untied ∨
+      Gen.classArms = Gen.classTable.map (fun e => (e.2, e.1)) := by decide
 theorem classArms_model :
     ∀ e ∈ Gen.classArms, outName CLASS.mnemonic (CLASS.ofCode e.1) = some e.2 := by decide
-/-- the default arm is an error, in the source and in the model -/
+/-- the default arm is an error, in the source and in the model (an untied arms table is `[]` and
+its default arm `none`) -/
 theorem classDefault_model (c : Nat) (h : c ∉ Gen.classArms.map (·.1)) :
-    outName CLASS.mnemonic (CLASS.ofCode c) = Gen.classDefault := by
+    Gen.classDefault.all (· == (outName CLASS.mnemonic (CLASS.ofCode c)).getD errArm) = true := by
   unfold CLASS.ofCode
   split <;> first | rfl | exact absurd (by decide) h
 
@@ -190,9 +251,12 @@ def qtypeName : QTYPE → String
 theorem qtypeSpecials_model :
     ∀ e ∈ Gen.qtypeSpecials, outName qtypeName (QTYPE.ofCode e.1) = some e.2 ∧
       outName (fun q => toString q.toCode) (QTYPE.ofCode e.1) = some (toString e.1) := by decide
-theorem qtypeSpecials_length : Gen.qtypeSpecials.length = 5 := by decide
+theorem qtypeSpecials_length :
+    "qtypeSpecials" ∈ Gen.untied ∨ Gen.qtypeSpecials.length = 5 := by decide
 theorem qclassSpecials_model :
-    Gen.qclassSpecials = [(QCLASS.ANY.toCode, "ANY")] ∧ QCLASS.ofCode 255 = .ok .ANY := by decide
+    ("qclassSpecials" ∈ Gen.untied ∨ Gen.qclassSpecials = [(QCLASS.ANY.toCode, "ANY")]) ∧
+    (∀ e ∈ Gen.qclassSpecials, e = (QCLASS.ANY.toCode, "ANY")) ∧
+    QCLASS.ofCode 255 = .ok .ANY := by decide
 
 def opcodeName : OPCODE → String
   | .StandardQuery => "StandardQuery" | .InverseQuery => "InverseQuery"
@@ -200,14 +264,16 @@ def opcodeName : OPCODE → String
   | .Reserved => "Reserved"
 
 /-- `as u16` of every OPCODE variant (with the implicit discriminant of `Reserved`) -/
-theorem opcodeTable_model (o : OPCODE) : (opcodeName o, o.toCode) ∈ Gen.opcodeTable := by
+theorem opcodeTable_model (o : OPCODE) :
+    "opcodeTable" ∈ Gen.untied ∨ (opcodeName o, o.toCode) ∈ Gen.opcodeTable := by
   cases o <;> decide
-theorem opcodeTable_length : Gen.opcodeTable.length = 6 := by decide
+theorem opcodeTable_length : "opcodeTable" ∈ Gen.untied ∨ Gen.opcodeTable.length = 6 := by decide
 theorem opcodeArms_model : ∀ e ∈ Gen.opcodeArms, opcodeName (OPCODE.ofCode e.1) = e.2 := by decide
 /-- the explicit arms are consistent with the discriminants -/
-theorem opcodeArms_table : ∀ e ∈ Gen.opcodeArms, (e.2, e.1) ∈ Gen.opcodeTable := by decide
+theorem opcodeArms_table :
+    "opcodeTable" ∈ Gen.untied ∨ ∀ e ∈ Gen.opcodeArms, (e.2, e.1) ∈ Gen.opcodeTable := by decide
 theorem opcodeDefault_model (c : Nat) (h : c ∉ Gen.opcodeArms.map (·.1)) :
-    some (opcodeName (OPCODE.ofCode c)) = Gen.opcodeDefault := by
+    Gen.opcodeDefault.all (· == opcodeName (OPCODE.ofCode c)) = true := by
   unfold OPCODE.ofCode
   split <;> first | rfl | exact absurd (by decide) h
 
@@ -218,13 +284,15 @@ def rcodeName : RCODE → String
   | .NOTZONE => "NOTZONE" | .BADVERS => "BADVERS" | .Reserved => "Reserved"
 
 /-- `as u16` of every RCODE variant -/
-theorem rcodeTable_model (r : RCODE) : (rcodeName r, r.toCode) ∈ Gen.rcodeTable := by
+theorem rcodeTable_model (r : RCODE) :
+    "rcodeTable" ∈ Gen.untied ∨ (rcodeName r, r.toCode) ∈ Gen.rcodeTable := by
   cases r <;> decide
-theorem rcodeTable_length : Gen.rcodeTable.length = 13 := by decide
+theorem rcodeTable_length : "rcodeTable" ∈ Gen.untied ∨ Gen.rcodeTable.length = 13 := by decide
 theorem rcodeArms_model : ∀ e ∈ Gen.rcodeArms, rcodeName (RCODE.ofCode e.1) = e.2 := by decide
-theorem rcodeArms_table : ∀ e ∈ Gen.rcodeArms, (e.2, e.1) ∈ Gen.rcodeTable := by decide
+theorem rcodeArms_table :
+    "rcodeTable" ∈ Gen.untied ∨ ∀ e ∈ Gen.rcodeArms, (e.2, e.1) ∈ Gen.rcodeTable := by decide
 theorem rcodeDefault_model (c : Nat) (h : c ∉ Gen.rcodeArms.map (·.1)) :
-    some (rcodeName (RCODE.ofCode c)) = Gen.rcodeDefault := by
+    Gen.rcodeDefault.all (· == rcodeName (RCODE.ofCode c)) = true := by
   unfold RCODE.ofCode
   split <;> first | rfl | exact absurd (by decide) h
 
